@@ -290,6 +290,12 @@ def P9(m, R):
                 undefined.append((f, n))
     for f, n in undefined:
         R.viol(f, n, 'name `%s` is not defined anywhere (NameError when this line runs)' % n.id, construct='undefined %s in %s' % (n.id, f.qual))
+    for f in m.funcs.values():
+        for n in f.walk():
+            if isinstance(n, ast.Call) and call_name(n) == 'isinstance' and len(n.args) == 2 and isinstance(n.args[0], ast.Name) and \
+                    n.args[0].id in ('list', 'tuple', 'str', 'int', 'dict', 'slice', 'bool') and n.args[0].id not in f.params:
+                R.viol(f, n, '`%s`: the arguments of isinstance are swapped (TypeError: arg 2 must be a type, for every value reaching this test)' % short(n),
+                       construct='isinstance swapped in ' + f.qual)
     f0 = m.fn('AnsiString.__getitem__')
     if not undefined:
         R.ok(f0, f0.node, 'every name read in a function is a local, a parameter, a module-level name or a builtin', construct='undefined names')
@@ -476,7 +482,7 @@ def P20(m, R):
 
 
 # ----------------------------------------------------------------------------------------------------------------------
-@rule('P21', 'stop-of-removed: inside the range a stop marker whose setting was removed (identity match) is deleted', floor=1)
+@rule('P21', 'stop-of-removed: inside the range a stop marker whose setting was removed (identity match) is deleted; start-block bookkeeping', floor=2)
 def P21(m, R):
     ro = m.roles
     f = m.fn('AnsiString.remove_formatting')
@@ -513,6 +519,43 @@ def P21(m, R):
         if g is None or scan not in list(_parents(g)):
             problems.append('the deletion is unconditional')
     R.check(not problems, f, scan, 'stop markers of removed settings are matched by identity and deleted (descending index)', '; '.join(problems), construct=cons)
+    # the start block: a selected setting that starts at this very point is un-started; one that continues from before is stopped here
+    cons = 'start block bookkeeping'
+    active = norm(loop.target.elts[2])
+    sb = next((n for n in ast.walk(loop) if isinstance(n, ast.For) and norm(n.iter) == active), None)
+    if sb is None:
+        R.viol(f, loop, 'at the start of the range the active settings are not examined', construct=cons)
+        return
+    sv = norm(sb.target)
+    look = next((n for n in ast.walk(sb) if isinstance(n, ast.Assign) and call_name(n.value) == ro.IDFIND1), None)
+    g = next((n for n in ast.walk(sb) if isinstance(n, ast.If) and look is not None and norm(look.targets[0]) in names_in(n.test)), None)
+    if look is None or g is None:
+        R.undecided(f, sb, 'start-block lookup not recognised', construct=cons)
+        return
+    problems = []
+    if [norm(a) for a in look.value.args] != [sv, '%s.%s' % (point, ro.START)]:
+        problems.append('looks up %s, expected (%s, %s.%s)' % ([norm(a) for a in look.value.args], sv, point, ro.START))
+    iv = norm(look.targets[0])
+    found_true = eval_guard(g.test, order_valuation({iv: 0}))
+    notfound_true = eval_guard(g.test, order_valuation({iv: -1}))
+    if found_true is None or notfound_true is None or found_true == notfound_true:
+        R.undecided(f, g, 'start-block test %s' % short(g.test), construct=cons)
+        return
+    found_arm, nf_arm = (g.body, g.orelse) if found_true else (g.orelse, g.body)
+    ft = [norm(x) for x in found_arm]
+    nt = [norm(x) for x in nf_arm]
+    acc = None
+    for t in nt:
+        mm = re.match(r'^(\w+)\.append\(%s\)$' % re.escape(sv), t)
+        if mm:
+            acc = mm.group(1)
+    if 'del %s.%s[%s]' % (point, ro.START, iv) not in ft:
+        problems.append('a selected setting that starts at this point is not removed from its START list (%s)' % ft)
+    if '%s.%s.append(%s)' % (point, ro.STOP, sv) not in nt:
+        problems.append('a selected setting that continues from before the range is not stopped here (%s): it stays active inside the range' % nt)
+    if acc is None or '%s.append(%s)' % (acc, sv) not in ft:
+        problems.append('the removed setting is not recorded for the rest of the scan in both cases')
+    R.check(not problems, f, g, 'starts here -> un-started; continues from before -> stopped here; recorded either way', '; '.join(problems), construct=cons)
 
 
 # ----------------------------------------------------------------------------------------------------------------------
